@@ -231,10 +231,34 @@ class C09:
             none_ret = [r for r in s.returns if ("cmp", "is", yt, NONE) in conjuncts(r.live)]
             some_ret = [r for r in s.returns if ("cmp", "isnot", yt, NONE) in conjuncts(r.live)]
             w_none = ("bin", "-", ("const", 1), ("call", ("attr", ys, "sum"), (), ()))
+            # a wrapper that hands both arguments to its sibling is its sibling
+            if len(s.returns) == 1 and s.returns[0].term[0] == "call" and s.returns[0].term[1][0] == "global" \
+                    and s.returns[0].term[1][1] in (f"{MET}:true_class_probability", f"{MET}:classification_score") \
+                    and s.returns[0].term[1][1] != f"{MET}:{fname}" and s.returns[0].term[2] == (yt, ys) and not s.returns[0].term[3]:
+                ctx.ok("R09.3", site, f"delegates to {s.returns[0].term[1][1].split(':')[1]}(y_true, y_score)")
+                ctx.ok("R09.7", site, "clamped by the sibling it delegates to")
+                continue
             nt = none_ret[0].term if len(none_ret) == 1 else None
             clamped = False
+            if len(none_ret) == 2:
+                # `x if x > 0 else 0` spelled out: x under (0 < x), 0 under (x <= 0)
+                pos_ = [r for r in none_ret if canon(r.term) == canon(w_none)]
+                zer_ = [r for r in none_ret if r.term in (("const", 0), ("const", 0.0))]
+                if len(pos_) == 1 and len(zer_) == 1:
+                    cp_ = [c for c in conjuncts(pos_[0].live) if c[0] == "cmp" and c[1] in ("lt", "le") and c[2] in (("const", 0), ("const", 0.0)) and canon(c[3]) == canon(w_none)]
+                    if cp_:
+                        nt, clamped = pos_[0].term, True
+                        none_ret = pos_
             if nt is not None and nt[0] == "call" and nt[1] in (("builtin", "max"), ("ext", "numpy.maximum")) and len(nt[2]) == 2 and not nt[3]:
-                z_ = [a for a in nt[2] if a in (("const", 0), ("const", 0.0))]
+                def is_zero(a):
+                    if a in (("const", 0), ("const", 0.0)):
+                        return True
+                    if a[0] == "attr" and a[1][0] == "global" and a[1][2] == "class" and ":" in a[1][1]:
+                        ci_ = ctx.index.class_by_qual(a[1][1])
+                        d_ = [st_ for st_ in (ci_.node.body if ci_ else []) if isinstance(st_, ast.Assign) and any(isinstance(t_, ast.Name) and t_.id == a[2] for t_ in st_.targets)]
+                        return len(d_) == 1 and isinstance(d_[0].value, ast.Constant) and d_[0].value.value in (0, 0.0) and not isinstance(d_[0].value.value, bool)
+                    return False
+                z_ = [a for a in nt[2] if is_zero(a)]
                 o_ = [a for a in nt[2] if a not in z_]
                 if len(z_) == 1 and len(o_) == 1:
                     nt, clamped = o_[0], True
